@@ -139,14 +139,14 @@ theorem translate_marginWidth (dx : Rat) (f : IR.Frag) : (f.translate dx).margin
 /-- **spacing on the first / last fragment only**: the fragment `split_inline_box` returns is an
 inline box at `position_x` that carries the start spacing iff it is the first fragment
 (`skip_stack is None`) and the end spacing iff it is the last one (`resume_at is None`). -/
-theorem box_spacing_first_last (split : IR.Split) (ls rs : Rat) (deco : Bool) (kids : List IR.Node)
+theorem box_spacing_first_last (ws : WS) (split : IR.Split) (ls rs : Rat) (deco : Bool) (kids : List IR.Node)
     (posX maxX : Rat) (skip : Option IR.Skip) (o : IR.LevelOut)
-    (h : IR.boxLevel split ls rs deco kids posX maxX skip = .ok o) :
+    (h : IR.boxLevel ws split ls rs deco kids posX maxX skip = .ok o) :
     ∃ w frags, o.frag = some (.box posX w (if skip.isNone then ls else 0) (if o.resume.isNone then rs else 0)
       deco frags) := by
   unfold IR.boxLevel at h
   simp only at h
-  generalize IR.boxLoop split rs (maxX * Gen.LineBreak.fudge) skip _ _ posX [] [] none none _ = res at h
+  generalize IR.boxLoop ws split rs (maxX * Gen.LineBreak.fudge) skip _ _ posX [] [] none none false _ = res at h
   cases res with
   | error e => cases h
   | ok lo =>
